@@ -282,6 +282,7 @@ theorem foreach_prefix (body : Sess)
   rw [exec_forEach _ _ _ hm]
   exact each_sends_prefix _ (fun pk st h => exec_nonrun _ _ _ h) (fun pk st h => hsend { env with cur := pk } st h) _ _
 
+set_option maxRecDepth 100000 in
 /-- **For every run** of an ASA, IOS or NSX approve or compare — whatever the device does — the
 change commands on the wire are a prefix of the script: never a foreign command, never out of order,
 never a repetition. -/
@@ -303,11 +304,11 @@ theorem change_commands_prefix_of_script (b : Backend) (hb : b = .asa ∨ b = .i
       exact ⟨k, by rw [hcs, hpl, this]; simp [changeSends]⟩
   rcases hb with rfl | rfl | rfl
   · exact key (.forEach (asaCmd .change .cur ["_"])) (asaCmd .change .cur ["_"]) rfl (by decide)
-      (fun env' st h => cs_console_cmd "cmd" ["_"] (asaCheck .change ;; .ite .joined "c2 != \"\"" (asaCheck .change) .skip)
+      (fun env' st h => cs_console_cmd "cmd" ["_"] (asaCheck .change ;; .ite .joined "$Cut.2 != \"\"" (asaCheck .change) .skip)
         (by decide) env' st h) (by decide)
   · exact key (.forEach (iosCmd .change .cur ["_"])) (iosCmd .change .cur ["_"]) rfl (by decide)
       (fun env' st h => cs_console_cmd "cmd" ["_"]
-        (iosCheck .change ;; .ite .joined "c2 != \"\"" (iosCheck .change) .skip ;; .ite .never "needReload" iosExtendReload .skip)
+        (iosCheck .change ;; .ite .joined "$Cut.2 != \"\"" (iosCheck .change) .skip ;; .ite .never "$const" iosExtendReload .skip)
         (by decide) env' st h) (by decide)
   · exact key _ _ rfl (by decide) cs_nsx_request (by decide)
 
@@ -343,9 +344,9 @@ def linuxExtras : List (List String) :=
    ["mv -f /etc/network/packet-filter.new /etc/network/packet-filter"]]
 
 def linuxCmdRest : Sess :=
-  linuxCheck .change ;; .ite .joined "c2 != \"\"" (linuxCheck .change) .skip ;;
+  linuxCheck .change ;; .ite .joined "$Cut.2 != \"\"" (linuxCheck .change) .skip ;;
   GetCmdOutput .probe (.lit "echo $?") ["echo $?"] ;;
-  .ite (.not (.flag .status0)) "s.conn.GetCmdOutput(\"echo $?\") != \"0\\n\""
+  .ite (.not (.flag .status0)) "$r.conn.GetCmdOutput(\"echo $?\") != \"0\\n\""
     (.abort ["%s failed (exit status)", "_"]) .skip
 
 theorem cs_linux_lit (x : String) (env : Env) (st : St) :
